@@ -3,3 +3,5 @@
 (declare-fun fname (Int Int) Int)
 (declare-fun fnum (Int) Int)
 (assert (forall ((b Int) (n Int)) (! (= (fnum (fname b n)) n) :pattern ((fname b n)))))
+; the empty set of file positions
+(define-fun nopos () (Array Int Bool) ((as const (Array Int Bool)) false))
